@@ -5,6 +5,10 @@
      base/templates.rs        add_types_prefix, transcribed on the shape of the rendered type
      ts|zod/templates/*.tera  which names each file declares / mentions
      analysis/event_parser.rs payload type = last path segment of the variable's declared type
+   State of the code: /repo with the accepted repairs of batch 2 (fixes/proposed): Zod enum alias,
+   one-argument Result harvested, dependencies of event payload types declared, one listener per
+   distinct event name with every non-alphanumeric character mangled to an underscore,
+   ipc::Channel recognised, files visited in sorted order.
    Definitions only. *)
 From Coq Require Import String Ascii.
 From Coq Require Import List Arith Bool.
@@ -38,8 +42,20 @@ Record cmd := { c_name : str; c_params : list (str * qty); c_ret : option qty }.
 Definition cmds (p : proj) : list cmd :=
   flat_map (fun it => match it with RFn n true ps r _ => [{| c_name := n; c_params := ps; c_ret := r |}] | _ => [] end) (pj_items p).
 Definition vparams (c : cmd) : list (str * qty) := filter (fun x => negb (is_tauri_parameter_type (snd x))) (c_params c).
+(* channel_parser.rs is_channel_segment: bare Channel, tauri::..::Channel, ipc::Channel *)
+Definition chan_msg (t : qty) : option qty :=
+  match t with
+  | QPath segs n true (a :: _) =>
+      if str_eqb n (S_ "Channel") &&
+         match segs with
+         | [] => true
+         | s0 :: rest => str_eqb s0 (S_ "tauri") || (str_eqb s0 (S_ "ipc") && match rest with [] => true | _ => false end)
+         end
+      then Some a else None
+  | _ => None
+  end.
 Definition chans (c : cmd) : list (str * qty) :=
-  flat_map (fun x => match channel_message (snd x) with Some m => [(fst x, m)] | None => [] end) (c_params c).
+  flat_map (fun x => match chan_msg (snd x) with Some m => [(fst x, m)] | None => [] end) (c_params c).
 Definition ret_str (c : cmd) : str := match c_ret c with Some t => qtts t | None => S_ "()" end.
 Definition pts (s : str) : tstruct := match parse_type_structure s with Some t => t | None => TCustom s end.
 Definition has_p (c : cmd) : bool := negb (Nat.eqb (List.length (vparams c)) 0).
@@ -64,6 +80,20 @@ Definition events (p : proj) : list (str * str) :=
     | RFn _ _ ps _ es => flat_map (fun e => if recv_ok (em_recv e) then [(em_name e, payload_str ps (em_payload e))] else []) es
     | _ => [] end) (pj_items p).
 
+(* generators/mod.rs create_event_contexts: one listener per distinct event name, first site wins *)
+Fixpoint first_by_name (seen : list str) (l : list (str * str)) : list (str * str) :=
+  match l with
+  | [] => []
+  | e :: r => if mem (fst e) seen then first_by_name seen r else e :: first_by_name (fst e :: seen) r
+  end.
+Definition levents (p : proj) : list (str * str) := first_by_name [] (events p).
+(* template_context.rs event_name_to_function: every byte that is not an ASCII letter or digit
+   becomes an underscore (a multi-byte character gives one underscore per character in the code and
+   one per byte here: PascalCase drops them all, so the result is the same) *)
+Definition is_alnum (c : ascii) : bool :=
+  let n := nat_of_ascii c in (((48 <=? n) && (n <=? 57)) || ((65 <=? n) && (n <=? 90)) || ((97 <=? n) && (n <=? 122)))%nat.
+Definition lname (ev : str) : str := L "on" ++ pascal true (map (fun c => if is_alnum c then c else "_"%char) ev).
+
 (* definitions: the first serde-deriving item of that name; tuple structs give no StructInfo *)
 Fixpoint info_in (n : str) (l : list ritem) : option (bool * list sfield) :=      (* is_enum, fields kept *)
   match l with
@@ -81,14 +111,48 @@ Definition is_enum (p : proj) (n : str) : bool := match info p n with Some (b, _
 Fixpoint grow (step : str -> list str) (n : nat) (seen : list str) : list str :=
   match n with 0 => seen | S k => grow step k (seen ++ filter (fun x => negb (mem x seen)) (dedup (flat_map step seen))) end.
 
+(* analysis/mod.rs extract_type_names_recursive after the repair: as Harvest.harvest, except that a
+   Result without a comma hands its only argument on *)
+Fixpoint harvest2 (fuel : nat) (s0 : str) : list str :=
+  match fuel with
+  | 0 => []
+  | S f =>
+    let s := trim s0 in
+    if starts (L "Result<") s then
+      match strip_wrapped "Result<" s with
+      | Some inner => match find_char ","%char inner with
+                      | Some i => harvest2 f (trim (firstn i inner)) ++ harvest2 f (trim (skipn (S i) inner))
+                      | None => harvest2 f inner
+                      end
+      | None => [] end
+    else if starts (L "Option<") s then
+      match strip_wrapped "Option<" s with Some inner => harvest2 f inner | None => [] end
+    else if starts (L "Vec<") s then
+      match strip_wrapped "Vec<" s with Some inner => harvest2 f inner | None => [] end
+    else if starts (L "HashMap<") s || starts (L "BTreeMap<") s then
+      match (if starts (L "HashMap<") s then strip_wrapped "HashMap<" s else strip_wrapped "BTreeMap<" s) with
+      | Some inner => match find_char ","%char inner with
+                      | Some i => harvest2 f (trim (firstn i inner)) ++ harvest2 f (trim (skipn (S i) inner))
+                      | None => [] end
+      | None => [] end
+    else if starts (L "HashSet<") s || starts (L "BTreeSet<") s then
+      match (if starts (L "HashSet<") s then strip_wrapped "HashSet<" s else strip_wrapped "BTreeSet<" s) with
+      | Some inner => harvest2 f inner | None => [] end
+    else if starts (L "(") s && ends_with ")"%char s && negb (str_eqb s (L "()")) then
+      flat_map (fun x => harvest2 f (trim x)) (split_naive ","%char (mid 1 1 s))
+    else if starts (L "&") s then harvest2 f (strip_amps s)
+    else if custom_name s then [s] else []
+  end.
+Definition extract_type_names2 (s : str) : list str := harvest2 (S (List.length s)) s.
+
 (* analyze_project: harvested names, then resolve_types_lazily *)
 Definition harvest_roots (p : proj) : list str :=
-  flat_map (fun c => flat_map (fun ch => extract_type_names (qtts (snd ch))) (chans c) ++
-                     flat_map (fun x => extract_type_names (qtts (snd x))) (vparams c) ++
-                     extract_type_names (ret_str c)) (cmds p) ++
-  flat_map (fun e => extract_type_names (snd e)) (events p).
+  flat_map (fun c => flat_map (fun ch => extract_type_names2 (qtts (snd ch))) (chans c) ++
+                     flat_map (fun x => extract_type_names2 (qtts (snd x))) (vparams c) ++
+                     extract_type_names2 (ret_str c)) (cmds p) ++
+  flat_map (fun e => extract_type_names2 (snd e)) (events p).
 Definition hdeps (p : proj) (n : str) : list str :=
-  filter (has_info p) (flat_map (fun f => extract_type_names (qtts (sf_ty f))) (fields_of p n)).
+  filter (has_info p) (flat_map (fun f => extract_type_names2 (qtts (sf_ty f))) (fields_of p n)).
 Definition discovered (p : proj) : list str :=
   grow (hdeps p) (List.length (pj_items p)) (dedup (filter (has_info p) (harvest_roots p))).
 
@@ -107,7 +171,7 @@ Definition sdeps (p : proj) (disc : list str) (n : str) : list str :=
 Definition used (p : proj) : list str :=
   let disc := discovered p in
   dedup (filter (fun x => mem x disc) (grow (sdeps p disc) (List.length (pj_items p)) (dedup (flat_map (fun c => flat_map cust_raw (cmd_site_ts c)) (cmds p)))) ++
-         filter (fun x => mem x disc) (flat_map (fun e => cust_raw (pts (snd e))) (events p))).
+         filter (fun x => mem x disc) (grow (sdeps p disc) (List.length (pj_items p)) (dedup (flat_map (fun e => cust_raw (pts (snd e))) (events p))))).
 
 (* ---------------- rendered names ---------------- *)
 Section Names.
@@ -206,13 +270,12 @@ Definition types_sum (p : proj) (zod : bool) : msum :=
   let m := pj_maps p in
   let us := used p in
   if zod then
-    {| ms_exports := flat_map (fun n => if is_enum p n then [n ++ S_ "Schema"] else [n ++ S_ "Schema"; n]) us ++
+    {| ms_exports := flat_map (fun n => [n ++ S_ "Schema"; n]) us ++
                      flat_map (fun c => opt_l (has_p c) [tname c ++ S_ "ParamsSchema"]) (cmds p) ++
                      flat_map (fun c => opt_l (has_pc c) [tname c ++ S_ "Params"]) (cmds p);
        ms_imports := S_ "z" :: opt_l (any_chan p) [S_ "Channel"];
        ms_star := []; ms_reexports := [];
-       ms_refs := flat_map (fun n => if is_enum p n then [B_ "z"]
-                                     else B_ "z" :: flat_map (fun f => zn m (field_ts f)) (fields_of p n) ++ [B_ "z"; Bare (n ++ S_ "Schema")]) us ++
+       ms_refs := flat_map (fun n => B_ "z" :: flat_map (fun f => zn m (field_ts f)) (fields_of p n) ++ [B_ "z"; Bare (n ++ S_ "Schema")]) us ++
                   flat_map (fun c => opt_l (has_p c) (B_ "z" :: flat_map (fun x => zn m (pts (qtts (snd x)))) (vparams c))) (cmds p) ++
                   flat_map (fun c => opt_l (has_p c) [B_ "z"; Bare (tname c ++ S_ "ParamsSchema")] ++ chan_refs p c ++
                                      opt_l (has_c c && negb (has_p c)) [B_ "string"; B_ "unknown"]) (cmds p) |}
@@ -235,10 +298,10 @@ Definition commands_sum (p : proj) (zod : bool) : msum :=
                                    [B_ "invoke"]) (cmds p) |}.
 
 Definition events_sum (p : proj) : msum :=
-  {| ms_exports := map (fun e => listener_name (fst e)) (events p);
+  {| ms_exports := map (fun e => lname (fst e)) (levents p);
      ms_imports := [S_ "listen"; S_ "UnlistenFn"; S_ "Event"; S_ "types"];
      ms_star := [(S_ "types", types_spec)]; ms_reexports := [];
-     ms_refs := flat_map (fun e => ev_refs p e ++ [B_ "void"; B_ "Promise"; B_ "UnlistenFn"; B_ "listen"]) (events p) |}.
+     ms_refs := flat_map (fun e => ev_refs p e ++ [B_ "void"; B_ "Promise"; B_ "UnlistenFn"; B_ "listen"]) (levents p) |}.
 
 Definition has_events (p : proj) : bool := negb (Nat.eqb (List.length (events p)) 0).
 Definition index_sum (p : proj) : msum :=
@@ -252,11 +315,11 @@ Definition gen (p : proj) (zod : bool) : files :=
 (* ---------------- where the set-level prediction does not apply: some emitted type is not a type ---------------- *)
 Definition all_site_ts (p : proj) : list tstruct :=
   flat_map cmd_site_ts (cmds p) ++ flat_map (fun n => map field_ts (fields_of p n)) (used p) ++ map (fun e => pts (snd e)) (events p).
-Definition prefixed_ts (p : proj) : list tstruct := map ret_ts (cmds p) ++ map (fun e => pts (snd e)) (events p).
+Definition prefixed_ts (p : proj) : list tstruct := map ret_ts (cmds p) ++ map (fun e => pts (snd e)) (levents p).
 Definition broken (p : proj) : bool :=
   existsb (garbage (pj_maps p)) (all_site_ts p) ||
   existsb (fun t => match atp_refs (pj_maps p) t with None => true | Some _ => false end) (prefixed_ts p) ||
-  existsb (fun e => negb (is_ts_identifier (listener_name (fst e)))) (events p).
+  existsb (fun e => negb (is_ts_identifier (lname (fst e)))) (events p).
 
 (* ---------------- premises ---------------- *)
 (* names of the Rust types a proj mentions: last segments of paths that are not std / tauri heads *)
@@ -292,7 +355,7 @@ Definition type_names (p : proj) : list str :=
 Definition wf (p : proj) : bool :=
   negb (has_dup (type_names p)) && negb (has_dup (map c_name (cmds p))) &&
   forallb (fun m => mem (snd m) prims4) (pj_maps p) &&
-  forallb (fun e => is_ts_identifier (listener_name (fst e))) (events p) &&
+  forallb (fun e => is_ts_identifier (lname (fst e))) (events p) &&
   forallb (fun x => match em_payload (snd x) with PVar n => mem n (map fst (fst x)) | POther => false | _ => true end) (emits_of p).
 
 (* ---------------- recorded defect classes ---------------- *)
@@ -300,37 +363,18 @@ Definition wf (p : proj) : bool :=
 Definition kf_garbage (p : proj) : bool := existsb (garbage (pj_maps p)) (all_site_ts p).
 (* C02-2 add_types_prefix, on a return type or an event payload type *)
 Definition kf_prefix (p : proj) : bool := existsb (fun t => negb (atp_clean (pj_maps p) t)) (prefixed_ts p).
-(* C02-3 Zod mode: an enum used in type position (prefixed site or channel message) has no alias *)
-Definition type_pos_names (p : proj) : list str :=
-  flat_map (fun t => match atp_refs (pj_maps p) t with Some l => flat_map (fun r => match r with Qual _ n => [n] | Bare n => [n] end) l | None => [] end) (prefixed_ts p) ++
-  flat_map (fun c => flat_map (fun ch => bn (pj_maps p) (pts (qtts (snd ch)))) (chans c)) (cmds p).
-Definition kf_zod_enum (p : proj) (zod : bool) : bool :=
-  zod && existsb (fun n => is_enum p n && mem n (used p)) (type_pos_names p).
-(* C02-4 Result with one type argument: the harvester finds nothing below it *)
-Fixpoint result_one_arg (t : qty) : bool :=
-  match t with
-  | QPath _ n _ args => (str_eqb n (S_ "Result") && Nat.eqb (List.length args) 1) || existsb result_one_arg args
-  | QRef u => result_one_arg u
-  | QTuple l => existsb result_one_arg l end.
-Definition kf_result_one_arg (p : proj) : bool := existsb result_one_arg (site_qtys p).
-(* C02-5 types reachable only through the fields of an event payload type are not declared *)
-Definition kf_event_nested (p : proj) : bool :=
-  existsb (fun e => existsb (fun n => mem n (used p) &&
-                                      existsb (fun d => negb (mem d (used p))) (flat_map (fun f => customs (pj_maps p) (field_ts f)) (fields_of p n)))
-                            (cust_raw (pts (snd e)))) (events p).
 (* C02-6 the payload variable's declared type has type arguments: only its head name is kept *)
 Fixpoint generic_head (t : qty) : bool := match t with QRef u => generic_head u | QPath _ _ angle _ => angle | QTuple _ => false end.
 Definition kf_event_head (p : proj) : bool :=
   existsb (fun x => existsb generic_head (payload_qty (fst x) (em_payload (snd x)))) (emits_of p).
-(* C02-7 one listener per emit site: the same listener name twice *)
-Definition kf_dup_listener (p : proj) : bool := has_dup (map (fun e => listener_name (fst e)) (events p)).
+(* C02-7 two distinct event names mangle to one listener identifier (a-b beside a_b) *)
+Definition kf_dup_listener (p : proj) : bool := has_dup (map (fun e => lname (fst e)) (levents p)).
 (* C02-8 generated names collide inside types.ts / commands.ts *)
 Definition kf_collision (p : proj) (zod : bool) : bool :=
   has_dup (ms_exports (types_sum p zod)) || has_dup (ms_exports (commands_sum p zod)).
 
 Definition kf_C02 (p : proj) (zod : bool) : bool :=
-  kf_garbage p || kf_prefix p || kf_zod_enum p zod || kf_result_one_arg p || kf_event_nested p || kf_event_head p ||
-  kf_dup_listener p || kf_collision p zod.
+  kf_garbage p || kf_prefix p || kf_event_head p || kf_dup_listener p || kf_collision p zod.
 
 (* every custom name a declaration or a prefixed site mentions is declared (decidable side condition
    of the model-level theorem; the full statement derives it from closed_world and the classes) *)
